@@ -458,6 +458,9 @@ fn fnv(h: u64, bytes: &[u8]) -> u64 {
     }
     h
 }
+pub fn hash_bytes(b: &[u8]) -> u64 {
+    fnv(0xcbf29ce484222325, b)
+}
 pub fn hash_str(s: &str) -> u64 {
     fnv(0xcbf29ce484222325, s.as_bytes())
 }
